@@ -31,10 +31,13 @@ def to_smt2(formulas):
     return "(set-logic ALL)\n" + s.to_smt2()
 
 
-def _solve_z3(text, timeout_ms):
+def _solve_z3(text, timeout_ms, seed=0):
     ctx = z3.Context()
     s = z3.Solver(ctx=ctx)
     s.set('timeout', timeout_ms)
+    if seed:
+        s.set('smt.random_seed', seed)
+        s.set('smt.phase_selection', 5 if seed % 2 else 2)
     s.set('smt.mbqi', False)
     s.set('auto_config', False)
     try:
@@ -95,7 +98,14 @@ def solve_job(job):
     if r2 == 'unsat':
         return key, 'unsat', 'cvc5-1.0', time.time() - t0, d2, attempts
     if saturated:
-        # E-matching saturated without a contradiction within a second: more time does not help
+        # E-matching saturated without a contradiction within a second: more time does not help; other instantiation
+        # orders might (cheap to try)
+        for sd in (7, 23):
+            ts = time.time()
+            rs, ds = _solve_z3(text, FIRST_TIMEOUT_MS, seed=sd)
+            attempts.append((f'z3-5.1-seed{sd}', rs, round(time.time() - ts, 3)))
+            if rs == 'unsat':
+                return key, 'unsat', 'z3-5.1', time.time() - t0, ds, attempts
         return key, 'unknown', 'none', time.time() - t0, f"z3: {d}; cvc5: {r2} {d2}", attempts
     t2 = time.time()
     r3, d3 = _solve_cli(['/usr/bin/z3', '-T:%d' % (TIMEOUT_MS // 1000)], text, TIMEOUT_MS / 1000)
@@ -108,6 +118,13 @@ def solve_job(job):
     attempts.append(('z3-5.1-long', r4, round(time.time() - t3, 3)))
     if r4 == 'unsat':
         return key, 'unsat', 'z3-5.1', time.time() - t0, d4, attempts
+    if r4 != 'sat':
+        for sd in (7, 23):
+            ts = time.time()
+            rs, ds = _solve_z3(text, TIMEOUT_MS, seed=sd)
+            attempts.append((f'z3-5.1-seed{sd}', rs, round(time.time() - ts, 3)))
+            if rs == 'unsat':
+                return key, 'unsat', 'z3-5.1', time.time() - t0, ds, attempts
     if r4 == 'sat' or r3 == 'sat' or r2 == 'sat':
         return key, 'sat', 'mixed', time.time() - t0, d4 or d, attempts
     return key, 'unknown', 'none', time.time() - t0, f"z3: {d}; cvc5: {d2}; z3-4.8: {d3}", attempts
